@@ -242,6 +242,7 @@ func (ck *checker) partTerminal() {
 		}
 	}
 	ck.optionsProbe(s.Addr())
+	ck.interpreterProbe()
 }
 
 // optionsProbe: one HTTP OPTIONS request gets one response, however many
@@ -345,4 +346,68 @@ func (ck *checker) slowReaderProbe() {
 	ctx.Eval(1)
 	ctx.Count("slow_reader_replies_checked", 2*n)
 	ctx.Distinct("term:slow-reader")
+}
+
+// interpreterProbe: rejected commands must not use up a server-wide resource.
+// Malformed WHEREEVAL clauses (fewer arguments than announced, a script that
+// does not compile, an unknown sha) are sent well over a thousand times on one
+// connection; afterwards another connection's scripts must still run.
+func (ck *checker) interpreterProbe() {
+	ctx := ck.ctx
+	s := ck.startServer()
+	defer s.Kill9()
+	c, err := wire.Dial(s.Addr(), ioTimeout)
+	if err != nil {
+		ctx.Inconclusive("interpreter probe: " + err.Error())
+		return
+	}
+	defer c.Close()
+	c.Write(wire.EncodeRESP("SET", "ik", "a", "POINT", "1", "2"))
+	c.Next(wire.RESP, ioTimeout)
+	shapes := [][]string{
+		{"SCAN", "ik", "WHEREEVAL", "return 1", "2", "a"},
+		{"SCAN", "ik", "WHEREEVAL", "this is not lua(", "0"},
+		{"SCAN", "ik", "WHEREEVALSHA", "0123456789012345678901234567890123456789", "0"},
+		{"NEARBY", "ik", "WHEREEVAL", "return 1", "3", "x", "POINT", "1", "2"},
+	}
+	const per = 1100
+	for _, sh := range shapes {
+		var b []byte
+		for i := 0; i < per; i++ {
+			b = append(b, wire.EncodeRESP(sh...)...)
+		}
+		if err := c.Write(b); err != nil {
+			ctx.Inconclusive("interpreter probe: write: " + err.Error())
+			return
+		}
+		for i := 0; i < per; i++ {
+			if _, err := c.Next(wire.RESP, ioTimeout); err != nil {
+				if !s.Alive() {
+					_, site := s.Crashed()
+					ck.report(crashKey(site), "server died on repeated "+fmt.Sprint(sh)+": "+site, map[string]any{"command": sh, "stderr": s.StderrTail(3000)})
+					return
+				}
+				ctx.Inconclusive("interpreter probe: read: " + err.Error())
+				return
+			}
+		}
+		other, err := wire.Dial(s.Addr(), ioTimeout)
+		if err != nil {
+			ctx.Inconclusive("interpreter probe: " + err.Error())
+			return
+		}
+		other.Write(wire.EncodeRESP("EVAL", "return 41 + 1", "0"))
+		f, err := other.Next(wire.RESP, ioTimeout)
+		other.Write(wire.EncodeRESP("SCAN", "ik", "WHEREEVAL", "return true", "0", "IDS"))
+		f2, err2 := other.Next(wire.RESP, ioTimeout)
+		other.Close()
+		ctx.Eval(1)
+		ctx.Distinct("term:interpreters|" + sh[2] + "|" + sh[3])
+		if err != nil || err2 != nil || string(f) != ":42\r\n" || bytes.HasPrefix(f2, []byte("-")) {
+			ck.report("resource:interpreters-exhausted", fmt.Sprintf("after %d rejected commands %q on one connection, another connection's `EVAL \"return 41 + 1\" 0` answers %q and `SCAN ik WHEREEVAL \"return true\" 0 IDS` answers %q", per, sh, clip(string(f)), clip(string(f2))),
+				map[string]any{"rejected_command": sh, "times": per, "eval_reply": string(f), "whereeval_reply": string(f2)})
+			return
+		}
+	}
+	ctx.Count("interpreter_probe_rejected_commands", int64(per*len(shapes)))
 }
